@@ -8,6 +8,7 @@ nonce discipline in `Props/C08.lean` (Model/Http, section Nonce), `jwk` only for
 -/
 import AcmedVerif.Props.C15
 import AcmedVerif.Props.C08
+import AcmedVerif.Props.FlowMisc
 import AcmedVerif.Spec.C04
 import AcmedVerif.Gen.Tables
 
